@@ -26,7 +26,18 @@
 #define MAXLEN 8
 #endif
 
+#define MODE_FULL 0		/* ext2fs_dirhash2() end to end */
+#define MODE_PACK 1		/* str2hashbuf() alone: name bytes -> message words */
+#define MODE_XFORM 2		/* halfMD4Transform() / TEA_transform() alone: (state, words) -> state */
+#ifndef MODE
+#define MODE MODE_FULL
+#endif
+#ifndef NUM
+#define NUM 8
+#endif
+
 struct vf_in {
+	__u32 st[4], w[8];
 	unsigned char name[MAXLEN + 1];
 	unsigned char len;
 	__u32 seed[4];
@@ -83,12 +94,12 @@ static void ref_tea(__u32 st[4], const __u32 m[4])
 	st[1] += y;
 }
 
-/* character value as the kernel sees it: signed char or unsigned char, widened to 32 bits */
+/* character value as the kernel sees it: the byte read as signed char (default) or unsigned char, widened to 32 bits */
 static __u32 ref_chr(unsigned char c, int uns)
 {
-	if (uns || c < 128)
+	if (uns)
 		return c;
-	return (__u32) c - 256u;	/* two's complement sign extension */
+	return (__u32) (int) (signed char) c;
 }
 
 /* pack the chunk (p, len) into num words; len is the REMAINING length of the name */
@@ -129,8 +140,45 @@ int main(void)
 	errcode_t rc;
 	int len, rem, off, i, uns = HVER >= 3, zero;
 	static char nm[MAXLEN + 1];
+	__u32 seed[4];
 
 	VF_INPUT(IN);
+#if MODE == MODE_PACK
+	{
+		__u32 gw[8];
+		/* BOUND: remaining length 0..MAXLEN (beyond NUM*4 exercises the truncation), NUM words */
+		ASSUME(IN.len <= MAXLEN);
+		for (i = 0; i < MAXLEN + 1; i++)
+			nm[i] = (char) IN.name[i];
+		for (i = 0; i < 8; i++)
+			gw[i] = w[i] = 0x77777777;
+		str2hashbuf(nm, IN.len, gw, NUM, uns);
+		ref_pack(IN.name, IN.len, w, NUM, uns);
+		for (i = 0; i < 8; i++)
+			PROP(gw[i] == w[i], "name bytes are packed into message words as the kernel does (and nothing beyond NUM words is written)");
+		VF_END();
+		return 0;
+	}
+#elif MODE == MODE_XFORM
+	{
+		__u32 gs[4];
+		for (i = 0; i < 4; i++)
+			gs[i] = st[i] = IN.st[i];
+		for (i = 0; i < 8; i++)
+			w[i] = IN.w[i];
+#if HVER == 1
+		halfMD4Transform(gs, w);
+		ref_half_md4(st, w);
+#else
+		TEA_transform(gs, w);
+		ref_tea(st, w);
+#endif
+		for (i = 0; i < 4; i++)
+			PROP(gs[i] == st[i], "one transform step maps (state, words) as the kernel's does");
+		VF_END();
+		return 0;
+	}
+#endif
 #ifdef NLEN
 	len = NLEN;		/* BOUND: name length fixed per query when NLEN is given */
 #else
@@ -141,7 +189,21 @@ int main(void)
 	for (i = 0; i < MAXLEN + 1; i++)
 		nm[i] = (char) IN.name[i];
 
-	zero = !(IN.seed[0] | IN.seed[1] | IN.seed[2] | IN.seed[3]);
+#ifdef CONCRETE
+	/* BOUND: CONCRETE queries are known-answer checks of the glue (version dispatch, signedness, chunk loop, result word) on one fixed name with bytes >= 0x80 and one fixed seed; the answer comes from the reference model */
+	for (i = 0; i < MAXLEN + 1; i++)
+		IN.name[i] = (unsigned char) (i * 37 + 0x85);
+	IN.seed[0] = 0x01234567; IN.seed[1] = 0x89abcdef; IN.seed[2] = 0xfedcba98; IN.seed[3] = 0x76543210;
+	for (i = 0; i < MAXLEN + 1; i++)
+		nm[i] = (char) IN.name[i];
+#endif
+	for (i = 0; i < 4; i++)
+		seed[i] = IN.seed[i];
+#ifdef SEED0
+	/* BOUND: with SEED0 the first seed word is that non-zero constant (words 1..3 symbolic); the all-seeds case is the NLEN=0 and thorough queries */
+	seed[0] = SEED0;
+#endif
+	zero = !(seed[0] | seed[1] | seed[2] | seed[3]);
 #ifdef NULLSEED
 	zero = 1;
 #endif
@@ -149,7 +211,7 @@ int main(void)
 		st[0] = 0x67452301; st[1] = 0xefcdab89; st[2] = 0x98badcfe; st[3] = 0x10325476;
 	} else
 		for (i = 0; i < 4; i++)
-			st[i] = IN.seed[i];
+			st[i] = seed[i];
 
 #if HVER == 0 || HVER == 3
 	want = ref_legacy(IN.name, len, uns);
@@ -173,7 +235,7 @@ int main(void)
 #ifdef NULLSEED
 	rc = ext2fs_dirhash2(HVER, nm, len, 0, IN.hash_flags, 0, &got, &got_minor);
 #else
-	rc = ext2fs_dirhash2(HVER, nm, len, 0, IN.hash_flags, IN.seed, &got, &got_minor);
+	rc = ext2fs_dirhash2(HVER, nm, len, 0, IN.hash_flags, seed, &got, &got_minor);
 #endif
 	PROP(rc == 0, "supported hash version succeeds");
 	PROP(got_minor == want_minor, "minor hash equals the kernel's");
